@@ -2,7 +2,7 @@
 C11 — literals have the C11 value, type and encoding.
 
 Property theorems only (helper lemmas: Lemmas/LiteralsLemmas, LiteralsReaderLemmas, TextLemmas, C11Splice, C11Locality,
-C11SpliceEol, C11Translated, C11Readers, C11Rewrite, C11PpInt, C11PpNumber, C11Phases).  The left-hand sides are the
+C11SpliceEol, C11Translated, C11Readers, C11Rewrite, C11PpInt, C11PpNumber, C11Phases, C11PpContext).  The left-hand sides are the
 functions translated from unicode.c / tokenize.c / type.c on every check run
 (Gen/LiteralsGen.lean: codecs, ladders, tables; Gen/LitReadersGen.lean: the reader functions and the in-place phase loops;
 Gen/PpNumGen.lean: `convert_pp_int` as a whole with libc `strtoul` as a parameter, the pp-number arm of `tokenize()`, the body of
@@ -29,6 +29,7 @@ import ChibiVerif.Lemmas.C11SpliceEol
 import ChibiVerif.Lemmas.C11PpInt
 import ChibiVerif.Lemmas.C11PpNumber
 import ChibiVerif.Lemmas.C11Phases
+import ChibiVerif.Lemmas.C11PpContext
 
 set_option linter.unusedSimpArgs false
 
@@ -744,9 +745,8 @@ example : ChibiVerif.Gen.PpNum.ppNumberStart [0x78#8, 0x3D#8, 0x31#8, 0x65#8, 0x
     start test of `lexLiteral` (Model/Literals.lean) equal the translated scan on every text, so `lexLiteral` — the function the
     `C11_text_*` theorems are about — is, on every text, the dispatch over the translated pp-number arm, the translated
     `convert_pp_int` (with the digit loop as `strtoul`, on the token's own text) and the translated literal readers
-    (`C11_translated_literal_readers`).  What remains hand-written between `tokenize()` and this statement: that the token is
-    handed to `convert_pp_int` inside its text rather than as a copy (covered by `C11_int_value`, which is stated in context,
-    and by the `inta`/`lit` operations of the check), and the order of the arms of `tokenize()`. -/
+    (`C11_translated_literal_readers`).  `C11_translated_lex` removes the copy and the digit loop; `C11_arm_order` ties the order
+    of the arms. -/
 theorem C11_translated_ppnumber :
     (∀ p : List Byte, ppNumberLen p = ChibiVerif.Gen.PpNum.ppNumberEnd p 0) ∧
     (∀ p : List Byte, (ChibiVerif.Literals.isDigit (byteAt p 0) || (byteAt p 0 = 46#8 && ChibiVerif.Literals.isDigit (byteAt p 1))) =
@@ -770,6 +770,33 @@ theorem C11_translated_ppnumber :
 
 example : ChibiVerif.Gen.PpNum.ppNumberStart [0x31#8, 0x32#8, 0x75#8, 0x3B#8] 0 = true ∧
     lexLiteral [0x31#8, 0x32#8, 0x75#8, 0x3B#8] = .ok (.int 12#64 .ty_uint 3) := by decide
+
+/-- **C11 (`lexLiteral` is the translated code called as `tokenize()` calls it).**  `lexLiteralC` (Model/PpNumber.lean) takes the
+    translated pp-number arm and calls the translated `convert_pp_int` on the token INSIDE the text, with the Lean model of
+    glibc's `strtoul` — the function the check runs against the real tokenizer (`lit`, `file` operations).  On every text it is
+    equal to `lexLiteral`, the function all `C11_text_*` theorems are about (which copies the token and uses the digit loop),
+    except on texts that begin with a hexadecimal prefix followed by a second `0x`/`0X` (`SecondPrefix`, decidable; there libc
+    skips the second prefix: Findings/C11.lean `C11_strtoul_second_prefix`; no integer constant has that shape).
+    Reason: the byte after the token is not alphanumeric (the scan stopped there), and neither ladder of `convert_pp_int` nor
+    the digit loop accepts such a byte — it acts like the terminator of the copy. -/
+theorem C11_translated_lex (p : List Byte) (hsp : ¬ SecondPrefix p) : lexLiteralC p = lexLiteral p :=
+  ChibiVerif.Lemmas.PpContext.lexLiteral_eq p hsp
+
+/-- non-vacuity: `0x7fUL+1` -/
+example : ¬ SecondPrefix [48#8, 120#8, 0x37#8, 0x66#8, 85#8, 76#8, 0x2B#8, 0x31#8] ∧
+    lexLiteralC [48#8, 120#8, 0x37#8, 0x66#8, 85#8, 76#8, 0x2B#8, 0x31#8] = .ok (.int 0x7f#64 .ty_ulong 6) := by decide
+
+/-- **C11 (order of the literal arms of `tokenize()`).**  The arms of the `while (*p)` loop, extracted in source order from
+    tokenize.c (`tokenizeArms`), try the pp-number arm before every string-literal arm, the string-literal arms in the order of
+    the translated table `stringPrefixes`, then the character-constant arms in the order of `charPrefixes`, and only then
+    identifiers and punctuators — the order in which `lexLiteral` (Model/Literals.lean) dispatches; comments and white space
+    come first and are not literals. -/
+theorem C11_arm_order :
+    ChibiVerif.Gen.PpNum.tokenizeArms =
+      ["line_comment", "block_comment", "newline", "space", "pp_number"] ++
+      stringPrefixes.map (fun e => "str:" ++ String.ofList (e.1.map Char.ofNat)) ++
+      charPrefixes.map (fun e => "chr:" ++ String.ofList (e.1.map Char.ofNat)) ++ ["ident", "punct", "invalid"] := by
+  decide +kernel
 
 -- ------------------------------------------------------------------ tokenize_file: BOM test and phase order
 
